@@ -41,6 +41,8 @@ def run(chk, repo):
     sh.slot_escape_rule(chk, repo, "R04.2")
     hash_cells(chk, repo)
     save_regs(chk, repo)
+    chk.doc("R04.6", "bit-field stores keep the neighbours in the byte")
+    bitfields(chk, repo)
     # array-map cells are variables too: the layout rules of C08 are
     # necessary conditions of this property as well
     chk.doc("R08.1", "array map: single source of layout")
@@ -48,6 +50,98 @@ def run(chk, repo):
     chk.doc("R08.3", "array map: one slot per visible variable")
     c08.layout(chk, repo)
     c08.dedup(chk, repo)
+
+
+def _tree_value(t, env):
+    """concrete value of a raw-term tree (sa/dsl.py) under env"""
+    if isinstance(t, str):
+        return env[t]
+    if isinstance(t, (int, float)):
+        return t
+    op, *args = t
+    a = [_tree_value(x, env) for x in args]
+    if op == "NEG":
+        return -a[0]
+    f = {"ADD": lambda x, y: x + y, "SUB": lambda x, y: x - y,
+         "MUL": lambda x, y: x * y, "AND": lambda x, y: x & y,
+         "OR": lambda x, y: x | y, "XOR": lambda x, y: x ^ y,
+         "LSH": lambda x, y: x << y, "RSH": lambda x, y: x >> y}.get(op)
+    if f is None:
+        raise AnalysisError(f"bit-field store: operator {op} in the value")
+    return f(*a)
+
+
+def bitfields(chk, repo):
+    """R04.6: a store into a bit field writes the byte with every bit
+    outside the field as it was.  The bit-field branch of Memory._set is
+    executed abstractly for fields (pos, bits) and values - Python numbers
+    that fit, that are too wide, that are negative, and run-time
+    expressions - and the expression it builds for the byte is evaluated
+    for every old byte"""
+    from ..dsl import Ctx
+    d = Ctx(repo)
+    sym = E + "Memory._set"
+    f = repo.func(sym)
+    chk.analysed(sym)
+    br = [s for s in walk_no_nested(f) if isinstance(s, ast.If) and match(
+        "isinstance(self.fmt, tuple)", s.test) is not None]
+    need(len(br) == 1, f"{sym}: the bit-field branch was not found")
+    body = br[0].body
+    bad = []
+    rows = 0
+    ev = d.ev
+    for pos, bits in ((0, 1), (3, 1), (7, 1), (0, 4), (4, 4), (2, 3),
+                      (5, 2), (1, 7)):
+        field = ((1 << bits) - 1) << pos
+        vals = [0, 1, (1 << bits) - 1, 1 << bits, (1 << bits) + 1, 0xff,
+                -1, -2] if bits > 1 else [0, 1, True, False, 2, -1]
+        vals = vals + ([("E",)] if bits > 1 else [])
+        for v in vals:
+            rows += 1
+            me = d.memory("s", (pos, bits))
+            val = d.expr("v", False, False) if isinstance(v, tuple) else v
+            env = {"self": me, "value": val,
+                   "exitStack": Opaque("exitStack")}
+            tag = f"field (pos {pos}, {bits} bits) = " + (
+                "expression v" if isinstance(v, tuple) else repr(v))
+            try:
+                ev.run_block(body, env)
+                tree, k, probs = d.term(env["value"], {"s", "v"})
+            except Raised as e:
+                bad.append(f"{tag}: raises {e.what}")
+                continue
+            except Unknown as e:
+                raise AnalysisError(f"{sym}: bit-field branch cannot be "
+                                    f"evaluated for {tag}: {e}")
+            if k or probs:
+                bad.append(f"{tag}: {probs[0] if probs else 'scaled'}")
+                continue
+            if me.fields.get("fmt") != "B":
+                bad.append(f"{tag}: the byte is stored with format "
+                           f"{me.fields.get('fmt')!r}")
+                continue
+            for old in range(256):
+                for vv in ((0, 1, (1 << bits) - 1, 0x55, 0xff, 1 << bits)
+                           if isinstance(v, tuple) else (v,)):
+                    new = _tree_value(tree, {"s": old, "v": vv}) & 0xff
+                    want = (int(bool(vv)) if bits == 1 else vv)
+                    if (new ^ old) & ~field & 0xff:
+                        bad.append(f"{tag}: old byte {old:#04x} becomes "
+                                   f"{new:#04x}, bits outside the field "
+                                   f"{field:#04x} change")
+                        break
+                    if (new & field) != ((want << pos) & field):
+                        bad.append(f"{tag}: old byte {old:#04x} becomes "
+                                   f"{new:#04x}, the field does not hold "
+                                   f"the value")
+                        break
+                else:
+                    continue
+                break
+    chk.ob("R04.6", sym, f"a bit-field store keeps the other bits of the "
+           f"byte ({rows} field/value combinations by abstract execution, "
+           f"every old byte)", not bad, br[0], "; ".join(bad[:3]) or
+           "new = value << pos within the field, old outside")
 
 
 def subprogram_locals(chk, repo):
